@@ -1,6 +1,6 @@
 (* C08 — stylesheet output keeps the token stream and all meaningful whitespace. Pinned statements. *)
 From GE Require Import Model.Str Model.CssNum Model.CssTok Model.CssOut Model.CssUrlEnc Model.Css Model.CssSpec.
-From GE Require Import Proofs.CssOutProofs Proofs.CssSpecProofs Proofs.CssTokProofs.
+From GE Require Import Proofs.CssOutProofs Proofs.CssSpecProofs Proofs.CssTokProofs Proofs.CssShapeProofs Proofs.CssSheetShape.
 Open Scope N_scope.
 
 (* the separator table of cssparser is honoured by append_token, in both directions *)
@@ -58,3 +58,25 @@ Proof.
   split; [apply former_d13_now_conforms | split; [apply former_d14_now_conforms | apply former_d23_now_conforms]].
 Qed.
 Print Assumptions C08_fixed_D13_D14_D23_conform.
+
+(* WHOLE SHEETS, EVERY OPTION SET: the tokens of the normal output that are not white space - kind, unit and strings of
+   each (CssSpec.tok_shape; numeric values are C10's) - are exactly the specification's, in order: nothing dropped, added,
+   merged, split or reordered; every class selector prefixed and signed where the specification says; every `rpx`
+   dimension a `vw` dimension where the specification converts; `@import` placeholders with their `@layer` / `@supports` /
+   `@media` wrappers opened and closed as often as the specification says; `:host` rules absent from the normal output.
+   For every well-shaped token tree of every size and depth whose rules are complete and that has no `rpx` dimension
+   directly in an at-rule prelude (class D29, the one place where the code deviates: C10_prelude_rpx_refuted).
+   What this leaves to the differential run is the white space BETWEEN the tokens (the gap requirements) and the known
+   serializer classes D15 D24 D27 D28, which concern the text, not the token kinds. *)
+Theorem C08_token_shapes_exact_sheet : forall o tree endp,
+  shaped tree = true -> k29_list tree = false ->
+  so_complete (expected o tree) = true ->
+  shp (o_tokens (w_normal (transform o tree endp))) = shp (map e_tok (so_normal (expected o tree))).
+Proof. exact shape_exact_sheet. Qed.
+Print Assumptions C08_token_shapes_exact_sheet.
+
+(* the hypotheses are inhabited: nested at-rules with selector functions; an @import with a sign and a dotted layer name *)
+Example C08_token_shapes_inhabited :
+  (shaped d14_tree = true /\ k29_list d14_tree = false /\ so_complete (expected with_prefix d14_tree) = true) /\
+  (shaped d25_tree = true /\ k29_list d25_tree = false /\ so_complete (expected d25_opts d25_tree) = true).
+Proof. vm_compute. repeat split; reflexivity. Qed.
